@@ -191,7 +191,7 @@ class C14(Prop):
         'plain close without a response is accepted only when the FIRST read of a message starts like a TLS/SSL record (0x16 or a byte >= 0x80)',
         'HEAD is not generated (response framing for HEAD is judged by C15)',
     )
-    budget = {'quick': (1500, 4), 'thorough': (9000, 16)}
+    budget = {'quick': (1500, 4), 'thorough': (50000, 16)}
     enum_procs = 8
 
     watchdog_wall = True        # the atheris entry point turns the wall-clock backstop off (libFuzzer owns SIGALRM)
